@@ -82,6 +82,19 @@ pub fn histories(p: u64, tier: Tier, heavy: bool) -> Vec<Vec<Action>> {
         let dels: Vec<OpSpec> = (0..14).filter(|i| !keep.contains(i)).map(|i| OpSpec::del(&["t"], &format!("s{:02}*{}", 2 * i + 1, klen))).collect();
         out.push(vec![tx(t3.clone()), tx(dels), tx(vec![OpSpec::put(&["t"], &format!("s00*{}", klen), &small)]), Action::Reopen, tx(vec![OpSpec::del(&["t"], &format!("s{:02}*{}", 2 * keep[0] + 1, klen))])]);
     }
+    // long keys (0.4 P): branch pages that need an overflow page; the bucket is deleted / emptied
+    {
+        let kl = f(2, 5);
+        let mut mk = vec![OpSpec::bucket("create", &[], "lk"), OpSpec::bucket("create", &["lk"], "in")];
+        for i in 0..8 {
+            mk.push(OpSpec::put(&["lk"], &format!("K{}*{}", i, kl), &small));
+            mk.push(OpSpec::put(&["lk", "in"], &format!("N{}*{}", i, kl), &small));
+        }
+        out.push(vec![tx(mk.clone()), tx(vec![OpSpec::bucket("delb", &["lk"], "in")]), tx(vec![OpSpec::bucket("delb", &[], "lk")]), Action::Reopen, tx(vec![OpSpec::bucket("create", &[], "lk"), OpSpec::put(&["lk"], "a", &third)])]);
+        if !heavy {
+            out.push(vec![tx(mk), tx(vec![OpSpec::bucket("delb", &[], "lk")]), tx((0..4).map(|i| OpSpec::put(&["b2"], &format!("K{}*{}", i, kl), &small)).chain(std::iter::once(OpSpec::bucket("goc", &[], "b2"))).rev().collect())]);
+        }
+    }
     // nested buckets, error kinds, delete nested then ancestor
     out.push(vec![
         tx(vec![OpSpec::bucket("create", &[], "x"), OpSpec::bucket("create", &["x"], "y"), OpSpec::put(&["x", "y"], "in", &third), OpSpec::put(&["x"], "y", &small), OpSpec::bucket("create", &[], "x"), OpSpec::bucket("getb", &["x"], "nope")]),
